@@ -15,7 +15,8 @@ EVIDENCE = dict(
          "object). MC_RVFormat checks Idem (Write(Read(Write(s))) = Write(s)) on the bounded model incl. controller values "
          "outside their ranges. Added sources: a 270-module project, MetaModules over negative-minimum targets and chained "
          "through nested MetaModules, consecutive Samplers, files beyond nominal ranges behind containers (these must load), files "
-         "with conflicting slot claims (known finding). non-trivial = a mutated source or one with at least 2 modules.",
+         "with conflicting slot claims (known finding). non-trivial = a mutated source or one with at least 2 modules."
+         " Deterministic boundary objects (MIDI-out names, named patterns, options all off) are among the sources.",
     explanation="histories: n load/save cycles per source")
 
 
